@@ -169,3 +169,28 @@ func H_C08_bytes() {
 		vrtAssert(c >= 3, "Search reports a static category for an expression that compiles")
 	}
 }
+
+// H_C08_text: like H_C08_bytes with code points of every width (letters,
+// digits and spaces beyond ASCII included): no text is accepted by one entry
+// point and rejected by another, whatever the document.
+func H_C08_text() {
+	vrtSpec(1, 2, 1, "a,1a,1", smASCII, nfInt, 0)
+	n := 1 + vrtChoose("len", tq(2, 3))
+	expr := vrtStrN("e", n, smUTF8)
+	doc := vrtDoc("d", 1, uObj|uArr|uNil|uStr, uScalar)
+	e, cerr := Compile(expr)
+	r, serr := Search(expr, doc)
+	if cerr != nil {
+		vrtAssert(serr != nil && r == nil, "Search accepts an expression Compile rejects")
+		if serr != nil {
+			vrtAssert(classOf(serr) == classOf(cerr), "Search and Compile report different categories for a static fault")
+		}
+		vrtAssert(vrtUntouched(doc), "the data was inspected although the expression is statically invalid")
+		return
+	}
+	r2, serr2 := e.Search(doc)
+	vrtAssert((serr == nil) == (serr2 == nil), "one-shot Search and the compiled expression disagree on failure")
+	if serr == nil && serr2 == nil {
+		vrtAssert(refEqual(r, r2), "one-shot Search and the compiled expression return different values")
+	}
+}
